@@ -25,6 +25,7 @@ import (
 
 	"github.com/go-logr/logr"
 	"k8s.io/apimachinery/pkg/apis/meta/v1/unstructured"
+	utilruntime "k8s.io/apimachinery/pkg/util/runtime"
 	ctrl "sigs.k8s.io/controller-runtime"
 
 	"github.com/crossplane/crossplane/verifh/kit"
@@ -243,8 +244,8 @@ func pcases() []pcase {
 			B:     []script{{"user1", []step{sOp(cu(u3))}}, {"usage:u3", []step{sRec("u3")}}},
 			After: []step{sOp(dtDry("t1", "v2", "Foreground"))}},
 		{Name: "second-delete-reconcile-vs-gc", Setup: cat(ready12, sOp(du("u1", "v1beta1", "Foreground")), sRec("u1")),
-			A: script{"usage:u1", []step{sRec("u1")}},
-			B: []script{{"gc", nil}},
+			A:     script{"usage:u1", []step{sRec("u1")}},
+			B:     []script{{"gc", nil}},
 			After: []step{sOp(dtDry("t1", "v1", ""))}},
 		{Name: "deleting-usage-vs-delete-used", Setup: cat(ready1, sOp(du("u1", "v1beta1", ""))),
 			A: script{"usage:u1", []step{sRec("u1")}},
@@ -545,9 +546,10 @@ var _ = rand.New
 
 func main() {
 	ctrl.SetLogger(logr.Discard())
+	utilruntime.PanicHandlers = nil // controller-runtime's webhook recovers handler panics; do not log a stack per panic
 	c := kit.New("C19", "exploration")
 	c.Rule = "worlds = real usage webhook handler (called over its HTTP AdmissionReview v1 interface, selected by the tree's usage.yaml rules+objectSelector+path, index registered by the real SetupWebhookWithManager) + real usage.Reconciler (one actor per Usage) + garbage collector over sim. " +
-		"(1) 15 fixed scenarios (by reference / by selector with and without controller match / with and without a using resource / composed and re-applied with RespectOwnerRefs / 2-3 Usages sharing a used resource / v1alpha1+v1beta1 Usages / used kind served as v1 and v2 / every propagation policy): fault-free, then a fault at EVERY call index of every usage reconcile x 6 outcomes followed by dry-run deletes and retries, and at every call of every webhook invocation x 4 error outcomes. " +
+		"(1) 16 fixed scenarios (by reference / by selector with and without controller match / with and without a using resource / composed and re-applied with RespectOwnerRefs / 2-3 Usages sharing a used resource / v1alpha1+v1beta1 Usages / used kind served as v1 and v2 / every propagation policy): fault-free, then a fault at EVERY call index of every usage reconcile x 6 outcomes followed by dry-run deletes and retries, and at every call of every webhook invocation x 4 error outcomes. " +
 		"(2) 10 two-party races, every split: A runs k API calls, the B chain j calls (or to completion), A finishes, B finishes. " +
 		"(3) seeded random plans (1-3 Usages, mostly sharing t1; users creating/deleting Usages and resources with every policy, dry-run or not, through v1/v2; fault plans; GC actor incl. orphan propagation) under uniform or sticky random schedulers at API-call granularity, then fault-free settle and a dry-run + real delete of every remaining resource. " +
 		"Oracles on every call/state: O1 on every DELETE whose antecedent held during the WHOLE request window (admission start to outcome), O2/O4 on the write storing Ready=True, O3 on the write removing the in-use label, O4 release after GC+reconciles. distinct = case name + schedule string; non-trivial = >=2 Usages named one resource at some instant, or a delete arrived while a usage reconcile was in flight / crashed / failed by an injected fault and not yet retried. " +
